@@ -80,6 +80,21 @@ impl FriInstance {
         t: &mut RefTranscript,
         tamper_root: impl Fn(usize, Felt) -> Felt,
     ) -> FriInstance {
+        Self::commit_ext(kind, params, p0, t, tamper_root, 0, 0)
+    }
+
+    /// `extra_height` > 0: every layer table is committed in a tree 2^extra times larger (real rows
+    /// first, zero rows after) and the last layer keeps 2^(log_last + extra) coefficients — the shape
+    /// of a FRI instance *declared* for a domain larger than the one the values live on.
+    pub fn commit_ext(
+        kind: HashKind,
+        params: &FriParams,
+        p0: Vec<Felt>,
+        t: &mut RefTranscript,
+        tamper_root: impl Fn(usize, Felt) -> Felt,
+        extra_height: u32,
+        last_extra: u32,
+    ) -> FriInstance {
         let n_inner = params.n_inner();
         assert!(p0.len() <= 1usize << params.log_input());
         let mut coefs = vec![p0];
@@ -91,7 +106,9 @@ impl FriInstance {
             let log_n = params.log_layer(i);
             let s = params.steps[i + 1];
             let ev = eval_on_coset_bitrev(&coefs[i], Felt::ONE, log_n);
-            let table = Table::build(kind, params.nvf, (log_n - s) as u64, 1usize << s, ev.clone());
+            let mut cells = ev.clone();
+            cells.resize(cells.len() << extra_height, Felt::ZERO);
+            let table = Table::build(kind, params.nvf, (log_n - s + extra_height) as u64, 1usize << s, cells);
             let root = tamper_root(i, table.tree.root());
             t.absorb_one(root);
             let b = t.squeeze();
@@ -103,7 +120,7 @@ impl FriInstance {
             coefs.push(next);
         }
         let mut last_coefs = coefs[n_inner].clone();
-        last_coefs.resize(1usize << params.log_last, Felt::ZERO); // truncation when degree is too high
+        last_coefs.resize(1usize << (params.log_last + extra_height + last_extra), Felt::ZERO); // truncation when degree is too high
         t.absorb(&last_coefs);
         FriInstance { kind, params: params.clone(), coefs, evals, tables, roots, eval_points, last_coefs }
     }
